@@ -2,10 +2,14 @@
 From SG Require Import Base.Prelude Gen.Callbacks Model.Dispatch.
 Open Scope Z_scope.
 
-Record c08case := { b_host : bool; b_s : Z; b_f : Z; b_w : bool; b_replies : list reply; b_system_ok : bool; b_header_ok : bool }.
-Definition tab_of (c : c08case) := if b_host c then host_callbacks else equipment_callbacks.
+(* b_user: the harness registered a callback of its own for this stream/function that raises *)
+Record c08case := { b_host : bool; b_s : Z; b_f : Z; b_w : bool; b_replies : list reply; b_system_ok : bool; b_header_ok : bool; b_user : bool }.
+Definition tab_of (c : c08case) :=
+  let tab := if b_host c then host_callbacks else equipment_callbacks in
+  if b_user c then ((b_s c, b_f c), [KReply (b_s c) (b_f c + 1)]) :: tab else tab.
 
 Definition outcomes_of (c : c08case) : list outcome :=
+  if b_user c then [ORaise] else
   match lookup_cb (tab_of c) (b_s c) (b_f c) with
   | None => [ORaise]
   | Some ks => ORaise :: map OReturn ks ++ flat_map (fun k => match k with KSentMayRaise a b => [OSentRaise a b] | _ => [] end) ks
